@@ -46,6 +46,8 @@ class Ctx:
         self.tier = tier
         self.seed = seed
         self.repo = Repo(root)
+        from .astutil import register_signatures
+        register_signatures(self.repo)
         self.R = Resolver(self.repo)
         self.E = Effects(self.repo, self.R)
         self.obs = []
